@@ -310,7 +310,7 @@ fn refl_strategy() -> impl Strategy<Value = Refl> {
         let stun0 = any::<[u8; 8]>().prop_map(|t| {
             let mut id = [0u8; 16];
             id[8..].copy_from_slice(&t);
-            Pay::App(AppReq::Stun(StunReq { mtype: 1, magic: false, id, attrs: vec![] }))
+            Pay::App(AppReq::Stun(StunReq { mtype: 1, magic: false, id, attrs: vec![], trailer: Hex(vec![]) }))
         });
         let l2 = if v4 { (0u8..4, 0u8..4, 0u8..5).prop_map(|(pad, spa, tha)| Req::Arp { pad, spa, tha }).boxed() } else { (ndp_opts_wf(), any::<bool>()).prop_map(|(opts, unicast)| Req::Ns { opts, unicast, other_dst: None }).boxed() };
         let req = prop_oneof![
@@ -418,8 +418,8 @@ fn golden_marked(i: u8) -> (Vec<u8>, &'static str) {
             let q = DnsQuery { id: 7, flags: 0x0000, questions: vec![DnsQuestion { labels: vec![Hex(b"a".to_vec())], qtype: 1, qclass: 1 }] };
             set_marker_named(&AppReq::Dns(q), 0)
         }
-        2 => set_marker_named(&AppReq::Stun(StunReq { mtype: 1, magic: true, id: [9; 16], attrs: vec![] }), 1),
-        3 => set_marker_named(&AppReq::Stun(StunReq { mtype: 1, magic: false, id: [3; 16], attrs: vec![] }), 0),
+        2 => set_marker_named(&AppReq::Stun(StunReq { mtype: 1, magic: true, id: [9; 16], attrs: vec![], trailer: Hex(vec![]) }), 1),
+        3 => set_marker_named(&AppReq::Stun(StunReq { mtype: 1, magic: false, id: [3; 16], attrs: vec![], trailer: Hex(vec![]) }), 0),
         _ => set_marker_named(&AppReq::Rpc(RpcCall { xid: 0x1234_5678, rpcvers_low: 2, program: 100000, version: 2, procedure: 3, cred_flavor: 0, cred: Hex(vec![]), verf_flavor: 0, verf: Hex(vec![]), args: Hex(vec![]) }), 0),
     }
 }
